@@ -104,6 +104,51 @@ def task_nodes(arg):
     return out.dump()
 
 
+def task_siblings(arg):
+    """An unused extra column that is the time-unit sibling of a rule must not change the rule's value."""
+    date_iso, names, subset = arg
+    out = Partial()
+    year = int(date_iso[:4])
+    df = popgen.frame(popgen.combined(names, year))
+    cols = list(df.columns)
+    n = len(df)
+    _, f = harness.env(date_iso)
+    try:
+        nodes = sim.all_nodes(date_iso, tuple(cols))
+        full = run_api(df, date_iso, nodes)
+        dag = sim.dag_for(date_iso, tuple(cols))
+    except Exception as e:  # noqa: BLE001
+        if sim.known_crash(date_iso, e):
+            out.count("sims_skipped_known_C08_crash")
+        return out.dump()
+    import networkx as nx
+
+    for t in subset:
+        s = split(t)
+        if not s or t not in f:
+            continue
+        anc = nx.ancestors(dag, t) if t in dag else set()
+        for v in UNITS:
+            sib = f"{s[0]}{v}{s[2]}"
+            if v == s[1] or sib in cols or sib in anc or sib in f:
+                continue
+            d2 = df.copy()
+            d2[sib] = df["hh_id"].to_numpy().astype(float) * 7.0 + 11.0 if sib.endswith("_hh") else np.linspace(11.0, 97.0, n)
+            case = {"date": date_iso, "households": names, "target": t, "extra_column": sib}
+            out.state((date_iso[:4], t, sib))
+            try:
+                r = run_api(d2, date_iso, [t])
+            except Exception as e:  # noqa: BLE001
+                out.step()
+                out.violation(f"extra-sibling-column-raises:{t}", case, f"{e!r}"[:300])
+                continue
+            out.step()
+            if not same(r[t].to_numpy(), full[t].to_numpy()):
+                out.violation(f"value-depends-on-unused-sibling-column:{t}", case,
+                              f"{t} = {r[t].tolist()[:4]} when the unused column {sib} is present, {full[t].tolist()[:4]} without it ({date_iso})")
+    return out.dump()
+
+
 def task_options(arg):
     """debug, check_minimal_specification, unused extra columns, the complete target set with all derived-only names."""
     date_iso, names = arg
@@ -234,6 +279,8 @@ def run(tier):
                 tasks.append((d, pop, nodes[k : k + 8]))
     for part in harness.pmap(task_nodes, harness.rotate(tasks)):
         rep.merge(part)
+    for part in harness.pmap(task_siblings, harness.rotate(tasks)):
+        rep.merge(part)
     otasks = [(d, pop) for d in dates for pop in ([POP, POP2] if thorough else [POP, POP2])]
     for part in harness.pmap(task_options, otasks):
         rep.merge(part)
@@ -244,6 +291,7 @@ def run(tier):
     return rep.finish(
         "per (population, date): for EVERY node t of the default-target graph the target sets {t}, {t}+derived companions, DEFAULT+{t} against "
         "the all-nodes run (bit-exact value and dtype, exactly the requested columns, one row per input row); debug on/off, "
-        "check_minimal_specification ignore/warn/raise(with exactly the root columns), seven kinds of unused extra columns, all nodes plus all "
+        "check_minimal_specification ignore/warn/raise(with exactly the root columns), seven kinds of unused extra columns, for every timed rule an "
+        "unused column named like its sibling in another time unit, all nodes plus all "
         "derived-only names, targets as string / duplicated / reversed"
     )
